@@ -107,7 +107,10 @@ class C04(core.Prop):
         'explicit generation, production performance-tracking evaluation} over random operator expressions (>= 2 stateful '
         'apply-path actors in most, train-only stateful actors, label operators); EVERY action runs in a fresh interpreter '
         'under a different PYTHONHASHSEED, re-expands the pipeline and binds the stored states through '
-        'Composition.persistent / asset.State offsets. Non-trivial = >= 2 persistent actors and >= 3 actions.'
+        'Composition.persistent / asset.State offsets; histories in which the code\'s hyper-parameters change between training and '
+        'loading (snapshot actors); a skip-connection operator trained without and applied with a sink-like tail; an implicitly '
+        'addressed generation read through the real asset levels while another training commits between two state loads. '
+        'Non-trivial = >= 2 persistent actors and >= 3 actions.'
     )
     ASSUMPTIONS = [
         'garbage-collection timing (Subscription.__del__ editing the global port registry) is runtime behaviour: it is exercised by the real runs, and only its refcount-deterministic effect is described in the known finding',
